@@ -7,6 +7,7 @@ CONSTANTS
   MaxRetries = 2
   DeadlineFails = FALSE
   AsImplemented = TRUE
+  OrphanMetaKept = FALSE
   CorruptIgnoresMeta = FALSE
   MayRelease = FALSE
 INVARIANTS GenCase
